@@ -273,7 +273,7 @@ var (
 		"NaN": math.NaN(), "nan": math.NaN(), "+Inf": math.Inf(1), "-Inf": math.Inf(-1)}
 	numBad    = []string{"abc", "12abc", "1.2.3", "--1", "ten", "info", "warn", "error", "ERROR", "", "debug", "true", "false", "0x1f", "0b101", "0o17"} // true/false: JSON booleans exposed by | json
 	durValues = map[string]time.Duration{"150ms": 150 * time.Millisecond, "2s": 2 * time.Second, "1m30s": 90 * time.Second, "1h": time.Hour, "0s": 0, "1.5s": 1500 * time.Millisecond, "250us": 250 * time.Microsecond, "3m": 3 * time.Minute}
-	durBad    = []string{"bad", "5", "1 s", "s", "1d2", "info", "warn", "error", "ERROR", "", "debug"}
+	durBad    = []string{"2d", "1w", "1d12h", "1y" /* units the query language has, Go durations do not */, "bad", "5", "1 s", "s", "1d2", "info", "warn", "error", "ERROR", "", "debug"}
 	bytValues = map[string]uint64{"10KB": 10000, "1MiB": 1048576, "512": 512, "1.5KB": 1500, "42B": 42, "2MB": 2000000, "1KiB": 1024, "0": 0}
 	bytBad    = []string{"x", "10XB", "KB", "-1KB", "1..5KB", "alice", "bob", "al", "alice2", "a.b*c", "root", "-"}
 	ipValues  = []string{"10.0.0.5", "10.0.0.200", "192.168.1.77", "172.16.5.4", "::1", "2001:db8::1", "2001:db8:1::ffff", "8.8.8.8"}
